@@ -218,9 +218,34 @@ def truncation(ctx):
     return scs, bad
 
 
+def reply_sequences(ctx):
+    """One connection, several commands, each answered on its own: a reply - negative, malformed or positive - is read for the command it
+    answers and leaves nothing behind for the next one (no state may survive a refusal)."""
+    rng = ctx.rng
+    scs = []
+    for i in range(60 if ctx.tier == "quick" else 800):
+        script = [(b"220 hi\r\n", False), (G.rand_ehlo(rng), False)]
+        ops = []
+        for _ in range(rng.randint(2, 7)):
+            k = rng.random()
+            if k < 0.45:
+                rep = G.rand_reply(rng, code=rng.choice([421, 450, 451, 500, 502, 550, 552, 554]), maxlines=rng.choice([1, 3]))
+            elif k < 0.55:
+                rep = rng.choice(G.MALFORMED)
+            else:
+                rep = G.rand_reply(rng, code=250, maxlines=rng.choice([1, 2, 4]))
+            script.append((rep, False)); ops.append(("noop",))
+        script.append((b"221 bye\r\n", False)); ops.append(("quit",))
+        scs.append({"hello": b"seq.test", "script": script, "ops": ops, "timeout_ms": 1500})
+    bad, parsed, ml = run_differential(ctx, scs)
+    ctx.cov["correspondence"]["command_sequences_on_one_connection"] = {"dialogues": len(scs) * 2, "disagreements": len(bad)}
+    return scs, bad
+
+
 def run(ctx):
     known = {e["class"]: e for e in load_known("C15")}
     tscs, tbad = truncation(ctx)
+    qscs, qbad = reply_sequences(ctx)
     inputs, impl, model, diffs, obad = pure_sweep(ctx)
     cases, simpl, smodel, sdiffs, spanics = serverinfo_sweep(ctx)
     scs, segbad = segmentation(ctx)
@@ -273,7 +298,7 @@ def run(ctx):
         k, cl = si_unexpl[0]
         ctx.violation({"kind": "oracle", "entry": "ServerInfo::from_response", "code": cases[k][0], "lines_hex": [hx(l) for l in cases[k][1]], "impl": simpl[k],
                        "rfc_reading": sorted(spec_features(cases[k][1])), "failures": len(si_unexpl)})
-    segbad = tbad + segbad
+    segbad = tbad + qbad + segbad
     if segbad:
         i, fl, why, r, ml, isc = segbad[0]
         ctx.violation({"kind": "correspondence-dialogue", "flavor": fl, "what": why, "scenario": isc, "model": ml, "impl": r}, nofail=not _is_prop_failure(why))
